@@ -149,6 +149,7 @@ def h06(E, M, case):
     n_sent0 = len(tr.sent)
 
     sess = {"P": 0, "Q": 0}
+    extra_nacks = []
     subs_ev = []  # per Subscribe(ttl>0) event: dict(i, key, t, ttl, src)
     removals = []  # (i, predicate over key)
     running = True
@@ -186,6 +187,10 @@ def h06(E, M, case):
                     subs_ev.append({"i": i, "key": key, "t": t, "ttl": ttl, "src": addr, "running": running})
                 else:
                     removals.append((i, lambda k, key=key: k == key))
+                    if not running:
+                        # nobody declares the eventgroup right now: the announcer answers this
+                        # StopSubscribe with a negative acknowledgement of its own
+                        extra_nacks.append({"i": i, "src": addr})
             data = mk(E, wire.sd_message(sess[a], 0xC0, entries, options))
 
             def cb(d=data, addr=addr, last=(i == len(evs) - 1)):
@@ -232,7 +237,7 @@ def h06(E, M, case):
             if x["e"]["type"] == wire.T_SUBSCRIBE_ACK:
                 acks.setdefault(x["to"], []).append(x["e"]["ttl"])
         nth = {}
-        for s in subs_ev:
+        for s in sorted(subs_ev + extra_nacks, key=lambda x: x["i"]):
             j = nth.get(s["src"], 0)
             nth[s["src"]] = j + 1
             al = acks.get(s["src"], [])
